@@ -345,8 +345,15 @@ def _py_list_from_vec(form: vec.PersistentVector) -> list:
 def _inst_from_str(inst_str: str) -> datetime:
     try:
         return langutil.inst_from_str(inst_str)
-    except (ValueError, OverflowError) as e:
+    except (ValueError, OverflowError, TypeError) as e:
         raise SyntaxError(f"Unrecognized date/time syntax: {inst_str}") from e
+
+
+def _queue_from_form(form: LispReaderForm) -> lqueue.PersistentQueue:
+    try:
+        return lqueue.queue(form)  # type: ignore[arg-type]
+    except TypeError as e:
+        raise SyntaxError(f"Unrecognized queue literal contents: {form}") from e
 
 
 def _uuid_from_str(uuid_str: str) -> uuid.UUID:
@@ -365,7 +372,7 @@ class ReaderContext:
         {
             sym.symbol("inst"): _inst_from_str,
             sym.symbol("py"): _py_from_lisp,
-            sym.symbol("queue"): lqueue.queue,
+            sym.symbol("queue"): _queue_from_form,
             sym.symbol("uuid"): _uuid_from_str,
         }
     )
